@@ -107,6 +107,13 @@ R = [
  ("ruma_federation_api::authentication::<impl core::convert::From<&ruma_federation_api::authentication::XMatrix> for http::header::value::HeaderValue>::from", "unwrap", None, "INV-ID", "the header is made of validated server names, a validated key id and base64, quoted when needed: visible ASCII only"),
 ]
 
+NE_LEN_GUARD = {
+    "ruma_common::http_headers::content_disposition::RawParam::<'a>::parse_next|assert:bounds|bounds",
+    "ruma_common::http_headers::content_disposition::parse_param_name|assert:bounds|bounds",
+    "ruma_common::http_headers::content_disposition::parse_param_value|assert:bounds|bounds",
+    "ruma_common::http_headers::content_disposition::parse_param_value|assert:bounds|bounds#2",
+    "ruma_identifiers_validation::server_name::validate|assert:bounds|bounds",
+}
 CRATES = ['ruma_common','ruma_identifiers_validation','ruma_signatures','ruma_state_res','ruma_html','ruma_events','ruma_federation_api']
 fx = F.Facts('A'); w = W.World(fx, CRATES)
 const_only = PC.const_only_functions(w)
@@ -116,7 +123,10 @@ for fn, s, key in PC.inventory(w, CRATES):
         continue
     for sub, kind, det, cat, reason in R:
         if sub in fn["path"] and (kind is None or s["kind"] == kind) and (det is None or det in s["detail"]):
-            entries.append({"key": key, "cat": cat, "reason": reason, "where": f"{fn['span'][0]}"})
+            e = {"key": key, "cat": cat, "reason": reason, "where": f"{fn['span'][0]}"}
+            if key in NE_LEN_GUARD:
+                e["requires"] = "ne-len-guard"      # re-verified on every run by panic_common.ne_len_guard
+            entries.append(e)
             break
     else:
         todo.append(key)
